@@ -2,7 +2,9 @@ SPEC = {
     "id": "C06",
     "n": {"quick": 400, "thorough": 12000},
     "components": {"1": "normalised (flattened) query", "2": "plan (service, type, path, selections per sub-plan)",
-                   "3": "gateway answer", "4": "reference semantics (eval_ref) vs the harness reference evaluator"},
+                   "3": "gateway answer", "4": "reference semantics (eval_ref) vs the harness reference evaluator",
+                   "5": "fed_ok and closedness of the gateway's plan where every object is federated",
+                   "6": "premises of Props/C06.federation_transparent where the harness counts the case as covered, and the theorem's instance recomputed"},
     "corr_name": "Federation.Normalize/Planner/Executor (flatten, plan_root, fed_exec, eval_ref) vs federation flattener / Planner / Executor and the harness reference evaluator",
     "coq_modules": ["Federation.Check06"],
     "harness_timeout": {"quick": 600, "thorough": 3000},
